@@ -93,7 +93,7 @@ func runSolver(sp solverSpec, dir, base, text string, timeoutS int) SolverResult
 	if ctx.Err() != nil && ans == "error" {
 		ans = "timeout"
 	}
-	if len(out) > 4000 {
+	if len(out) > 4000 && !strings.Contains(base, ".cand") && !strings.Contains(base, ".model") {
 		out = out[:4000]
 	}
 	return SolverResult{Solver: sp.name, Answer: ans, Secs: secs, Output: out}
